@@ -123,6 +123,8 @@ type Engine struct {
 	skippedPanics int
 	matBack map[string]*Loc
 	runesFlag int
+	acquired map[string]bool
+	knownActive map[string]bool
 }
 
 func (e *Engine) note(f string, a ...any) {
